@@ -127,6 +127,10 @@ pub struct ParamDecl {
     pub skipped: bool,
     /// has a `Cfg` bound (so `T::A0` is usable)
     pub cfg: bool,
+    /// only instantiated with unsigned integers (so that `Compact<T>` / `#[codec(compact)] x: T`
+    /// is legal)
+    #[serde(default)]
+    pub uint: bool,
 }
 
 #[derive(Clone, Debug, PartialEq, Eq, Serialize, Deserialize)]
@@ -593,6 +597,7 @@ struct TyCtx<'a> {
     /// arity of every planned def
     arities: &'a [usize],
     cfg_params: &'a [Vec<bool>],
+    uint_params: &'a [Vec<bool>],
 }
 
 impl<'r, R: Rng> ProgGen<'r, R> {
@@ -686,7 +691,10 @@ impl<'r, R: Rng> ProgGen<'r, R> {
                 }
             }
             15 if self.cfg.allow_compact => {
-                if self.cfg.compact_unit && self.chance(0.1) {
+                let uints: std::vec::Vec<usize> = (0..cx.params.len()).filter(|&i| cx.params[i].uint).collect();
+                if !uints.is_empty() && self.chance(0.6) {
+                    Ty::Compact(Ty::Param(*uints.choose(self.rng).unwrap()).b())
+                } else if self.cfg.compact_unit && self.chance(0.1) {
                     Ty::Compact(Ty::Tuple(vec![]).b())
                 } else {
                     Ty::Compact(Ty::Prim(*Prim::UINTS.choose(self.rng).unwrap()).b())
@@ -745,6 +753,13 @@ impl<'r, R: Rng> ProgGen<'r, R> {
                 } else {
                     args.push(Ty::Marker(self.rng.gen_range(0..2)));
                 }
+            } else if cx.uint_params[d][i] {
+                let own: std::vec::Vec<usize> = (0..cx.params.len()).filter(|&k| cx.params[k].uint).collect();
+                if !own.is_empty() && self.chance(0.5) {
+                    args.push(Ty::Param(*own.choose(self.rng).unwrap()));
+                } else {
+                    args.push(Ty::Prim(*Prim::UINTS.choose(self.rng).unwrap()));
+                }
             } else {
                 args.push(self.gen_ty(cx, depth.max(self.cfg.max_depth.saturating_sub(1)), heap));
             }
@@ -764,7 +779,12 @@ impl<'r, R: Rng> ProgGen<'r, R> {
                 let mut ty = self.gen_ty(cx, 0, false);
                 let mut compact = false;
                 if self.cfg.allow_compact && self.chance(0.08) {
-                    ty = Ty::Prim(*Prim::UINTS.choose(self.rng).unwrap());
+                    let uints: std::vec::Vec<usize> = (0..cx.params.len()).filter(|&i| cx.params[i].uint).collect();
+                    ty = if !uints.is_empty() && self.chance(0.6) {
+                        Ty::Param(*uints.choose(self.rng).unwrap())
+                    } else {
+                        Ty::Prim(*Prim::UINTS.choose(self.rng).unwrap())
+                    };
                     compact = true;
                 }
                 if let Ty::Param(i) = ty {
@@ -811,10 +831,12 @@ impl<'r, R: Rng> ProgGen<'r, R> {
             let params = (0..np)
                 .map(|i| {
                     let cfg = assoc_def && (i == 0 || self.chance(0.3));
+                    let skipped = if cfg { self.chance(0.5) } else { self.chance(self.cfg.p_skip_param) };
                     ParamDecl {
                         name: PARAM_NAMES[i].to_string(),
-                        skipped: if cfg { self.chance(0.5) } else { self.chance(self.cfg.p_skip_param) },
+                        skipped,
                         cfg,
+                        uint: !cfg && !skipped && self.cfg.allow_compact && self.chance(0.15),
                     }
                 })
                 .collect();
@@ -822,6 +844,7 @@ impl<'r, R: Rng> ProgGen<'r, R> {
         }
         let arities: Vec<usize> = params_all.iter().map(|p| p.len()).collect();
         let cfg_params: Vec<Vec<bool>> = params_all.iter().map(|p| p.iter().map(|q| q.cfg).collect()).collect();
+        let uint_params: Vec<Vec<bool>> = params_all.iter().map(|p| p.iter().map(|q| q.uint).collect()).collect();
         let markers = vec![
             Marker { assoc: (0..NASSOC).map(|_| self.simple_closed(false)).collect() },
             Marker { assoc: (0..NASSOC).map(|_| self.simple_closed(false)).collect() },
@@ -829,7 +852,7 @@ impl<'r, R: Rng> ProgGen<'r, R> {
         let mut defs = Vec::new();
         for me in 0..ndefs {
             let params = params_all[me].clone();
-            let cx = TyCtx { me, params: &params, ndefs_planned: ndefs, arities: &arities, cfg_params: &cfg_params };
+            let cx = TyCtx { me, params: &params, ndefs_planned: ndefs, arities: &arities, cfg_params: &cfg_params, uint_params: &uint_params };
             let mut direct = vec![false; params.len()];
             let kind = if self.chance(0.6) {
                 let style = *[Style::Named, Style::Named, Style::Unnamed, Style::Unit].choose(self.rng).unwrap();
@@ -885,6 +908,8 @@ impl<'r, R: Rng> ProgGen<'r, R> {
                     .map(|i| {
                         if prog.defs[d].params[i].cfg {
                             Ty::Marker(self.rng.gen_range(0..2))
+                        } else if prog.defs[d].params[i].uint {
+                            Ty::Prim(*Prim::UINTS.choose(self.rng).unwrap())
                         } else {
                             self.closed_arg(&prog, d)
                         }
